@@ -458,10 +458,12 @@ def make_candidates(self, fr, M, leaves, states, step_consts, houdini):
     #   P - I + r >= k   (e.g. "every candidate position before i - index1 has been rejected")
     ptrs = [l for l in leaves if l.kind != 'int']
     ints_ = [l for l in leaves if l.kind == 'int']
-    if houdini and ptrs and ints_ and len(ptrs) * len(ints_) <= 6:
+    if houdini and ptrs and ints_ and len(ptrs) * len(ints_) <= 6 and 'pairspec' in states[0].ghost:
+        # (only for candidate-position coverage: the ghost `hi` against loop counters / lane bounds)
         for pl in ptrs:
             for il in ints_:
                 rs = [r for r in ref_terms(self, fr, M, il, leaves) if len(r.t) == 1 and r.k == 0][:8]
+                rs += [r for r in ref_terms(self, fr, M, pl, leaves) if r.t and r not in rs][:6]      # offsets of live pointers into the region
                 for r in rs:
                     consider(V(pl.x) - V(il.x) + r)
                     consider(V(pl.x) - V(il.x) - r)
